@@ -17,6 +17,35 @@ m = {
  "checks": [], "not_applicable": [],
  "notes": "All checks share ./check (lib/vcheck.py): regenerate coq/Gen from /repo, full make, Print Assumptions per theorem, extraction, harness build against the working tree, corpus + seeded correspondence run, verdict (DESIGN.md 2.5).",
 }
+
+def technique_of(pid, c):
+    """Name the deciding method per property: always theorems in Coq about the executable model; the tie
+    to the code is the differential run of the extracted model, the acceptance of observed histories by
+    the model, a table or skeleton regenerated from the source by a translator, or several of these."""
+    mods = [m for m, _ in c['theorems']]
+    nm = c.get('no_model') or {}
+    ties = []
+    if any(d not in nm for d in c['domains'] if d != 'conc'):
+        ties.append('differential correspondence (extracted OCaml model vs implementation on the same generated inputs)')
+    if 'conc' in c['domains']:
+        ties.append('acceptance of the observed call/return histories of the concurrent writer by the extracted protocol model')
+    gen = []
+    if pid == 'C17' or any(d == 'validate' for d in c['domains']):
+        gen.append('field table (Gen/FieldTable.v)')
+    if 'Properties.SyncSkeleton' in mods:
+        gen.append('synchronisation skeleton of warcfile.go (Gen/SyncSkeleton.v)')
+    if 'Properties.AccessTable' in mods:
+        gen.append('shared-state access table (Gen/AccessTable.v)')
+    if 'Properties.SerialTable' in mods:
+        gen.append('uses of the name generator serial (Gen/AccessTable.v)')
+    if gen:
+        ties.append('model parts regenerated from the source on every run by the translator go/gen with tie theorems re-checked: ' + ', '.join(gen))
+    if pid == 'C12':
+        ties.append('the writer model whose effect trace the theorems speak about is the one tied to warcfile.go by the differential runs of C04 and C13')
+    if any(d in nm for d in c['domains']):
+        ties.append('executable statement of the property evaluated on the implementation by the harness (domains ' + ', '.join(d for d in c['domains'] if d in nm) + ')')
+    return 'machine-checked proof in Coq (theorems about an executable Gallina model, no axioms); model tied to the code by ' + '; '.join(ties)
+
 for p in allp:
     pid = p['id']
     if pid in props.PROPS and props.PROPS[pid].get('level_text', 'TODO') != 'TODO':
@@ -30,7 +59,7 @@ for p in allp:
             "engine": "coq-model",
             "level_claimed": {"category": "proof", "text": c['level_text'], "design_ref": c.get('design_ref', 'DESIGN.md section 4, ' + pid)},
             "level_note": c['level_note'],
-            "technique": c.get('technique', 'machine-checked proof in Coq about an executable model; model tied to the code by differential correspondence (extracted OCaml vs implementation)'),
+            "technique": c.get('technique', technique_of(pid, c)),
         })
     else:
         m["not_applicable"].append({"property_id": pid, "reason": "check not built yet in this session (work in progress; planned, see DESIGN.md section 4)"})
